@@ -32,6 +32,9 @@ type Config struct {
 	FixedInputs     map[string]interface{} // concrete run: label -> value
 	Deadline        time.Time
 	MaxViolations   int
+	// KnownClass, when set, maps a violation to the index of the known finding it matches (or -1).
+	// Known findings are kept once per index and do not count towards MaxViolations.
+	KnownClass func(v *Violation) int
 	// static partition of the path tree across workers: at the k-th fork (k<2) on a path this
 	// worker explores only alternatives j with j % PartCount[k] == PartIndex[k]
 	PartIndex [2]int
@@ -52,31 +55,35 @@ type Violation struct {
 	Sched     []int                  `json:"sched"`
 	Atoms     []string               `json:"atoms"`
 	Trace     []string               `json:"trace,omitempty"`
+	Known     int                    `json:"-"` // index+1 of the matching known finding, 0 if none
 }
 
 func (v *Violation) Key() string { return v.Kind + "|" + v.Pos + "|" + v.Msg }
 
 // Stats for evidence.
 type Stats struct {
-	Paths         int
-	Instrs        int64
-	Obligations   int
-	Discharged    int
-	Reached       map[string]int
-	Funcs         map[string]bool
-	Havocked      map[string]int
-	Stubs         map[string]int
-	Inconclusive  []string
-	Samples       []map[string]interface{}
-	SolverQueries map[string]int
-	SolverTime    map[string]float64
-	Disagreements int
-	SchedPoints   int
-	InitInstrs    int64
-	IfConverted   int
-	ForkSites     map[string]int
-	MaxDecisions  int
-	Observations  []string
+	Paths          int
+	Instrs         int64
+	Obligations    int
+	Discharged     int
+	Reached        map[string]int
+	Funcs          map[string]bool
+	Havocked       map[string]int
+	Stubs          map[string]int
+	Inconclusive   []string
+	Samples        []map[string]interface{}
+	SolverQueries  map[string]int
+	SolverTime     map[string]float64
+	Disagreements  int
+	SchedPoints    int
+	RaceChecks     int64 // memory / map accesses of library code checked against the vector clocks
+	SyncEdges      int64 // release operations recorded as happens-before sources
+	DeadlockChecks int64 // blocking operations at which global blocking was checked
+	InitInstrs     int64
+	IfConverted    int
+	ForkSites      map[string]int
+	MaxDecisions   int
+	Observations   []string
 }
 
 type decision struct {
@@ -223,7 +230,7 @@ func (ex *Exec) Run() {
 		if ex.aborted != "" {
 			return
 		}
-		if len(ex.Violations) >= ex.cfg.MaxViolations {
+		if ex.unknownViolations() >= ex.cfg.MaxViolations {
 			ex.inconclusive("stopped after %d violations (remaining paths not explored)", len(ex.Violations))
 			return
 		}
@@ -284,6 +291,7 @@ func (ex *Exec) runOnePath() {
 	ex.observed = nil
 	ex.ghost = map[string]Value{}
 	ex.tasks = nil
+	ex.cur = nil
 	ex.timers = nil
 	ex.killed = false
 	ex.schedUsed = 0
@@ -722,6 +730,17 @@ func (ex *Exec) recordViolation(kind, msg string, fr *frame, extra []*Term) {
 	if ex.vioKeys[v.Key()] {
 		return
 	}
+	if ex.cfg.KnownClass != nil {
+		if k := ex.cfg.KnownClass(v); k >= 0 {
+			v.Known = k + 1
+			kk := fmt.Sprintf("known#%d", k)
+			if ex.vioKeys[kk] {
+				ex.vioKeys[v.Key()] = true
+				return
+			}
+			ex.vioKeys[kk] = true
+		}
+	}
 	if ex.cfg.FixedInputs != nil {
 		v.Inputs = ex.cfg.FixedInputs
 	} else {
@@ -865,6 +884,9 @@ func (ex *Exec) Merge(o *Exec) {
 	a.Discharged += b.Discharged
 	a.Disagreements += b.Disagreements
 	a.SchedPoints += b.SchedPoints
+	a.RaceChecks += b.RaceChecks
+	a.SyncEdges += b.SyncEdges
+	a.DeadlockChecks += b.DeadlockChecks
 	a.IfConverted += b.IfConverted
 	if b.MaxDecisions > a.MaxDecisions {
 		a.MaxDecisions = b.MaxDecisions
@@ -902,6 +924,13 @@ func (ex *Exec) Merge(o *Exec) {
 		}
 	}
 	for _, v := range o.Violations {
+		if v.Known > 0 {
+			kk := fmt.Sprintf("known#%d", v.Known-1)
+			if ex.vioKeys[kk] {
+				continue
+			}
+			ex.vioKeys[kk] = true
+		}
 		if !ex.vioKeys[v.Key()] {
 			ex.vioKeys[v.Key()] = true
 			ex.Violations = append(ex.Violations, v)
@@ -920,4 +949,14 @@ func (ex *Exec) fnChain(fr *frame, n int) string {
 		out = append(out, f.fn.String())
 	}
 	return strings.Join(out, " < ")
+}
+
+func (ex *Exec) unknownViolations() int {
+	n := 0
+	for _, v := range ex.Violations {
+		if v.Known == 0 {
+			n++
+		}
+	}
+	return n
 }
